@@ -142,9 +142,11 @@ SelectPicks(maxEntries, phases, slice, slices) ==
 SelectScen(pk) ==
   MkScen(<<MkRule(10, pk.p, <<RuleLink(<<pk.tg>>, << >>, pk.op, FALSE, << >>)>>)>>, pk.rq, "On")
 
-OpTfs == {<< >>, <<"lowercase">>, <<"trim", "lowercase">>, <<"removeWhitespace", "uppercase">>, <<"length">>}
+\* the last list returns to an earlier value on its way ("x" -> "X" -> "x") before a step that tells the values apart
+OpTfs == {<< >>, <<"lowercase">>, <<"trim", "lowercase">>, <<"removeWhitespace", "uppercase">>, <<"length">>, <<"uppercase", "lowercase", "hexEncode">>}
+s_78 == <<55, 56>>     \* hexEncode("x")
 OpOps == {OpLit("streq", s_x), OpLit("contains", s_x), OpLit("beginsWith", s_x), OpLit("endsWith", s_X),
-          OpLit("eq", s_1), OpLit("ge", s_2), OpLit("lt", s_2), OpLit("rx", s_x)}
+          OpLit("eq", s_1), OpLit("ge", s_2), OpLit("lt", s_2), OpLit("rx", s_x), OpLit("streq", s_78)}
 OpTargets == {T("ARGS"), TK("ARGS_GET", s_a), Tgt("ARGS_GET", SelAll, TRUE, << >>)}
 OpEntries == {E("ARGS_GET", k, v) : k \in {s_a, s_b}, v \in {s_x, s_X, s_sx, << >>, s_xy}}
 OperatePicks(maxEntries, phases, slice, slices) ==
